@@ -19,6 +19,7 @@ type TargetSpec struct {
 	Payload     []byte
 	ContentType string
 	Gzip        bool
+	GzipMembers int    // with Gzip: > 1 = the compressed body consists of that many gzip members
 	Chunks      []int  // read chunk sizes, cycled (empty = as asked)
 	Fail        string // "", connect, status, timeout, break, gzip_corrupt
 	FailOffset  int    // for break / gzip_corrupt: offset in the bytes on the wire
@@ -162,6 +163,19 @@ func Gzip(b []byte) []byte {
 	return buf.Bytes()
 }
 
+// GzipMembers compresses b as n concatenated gzip members (RFC 1952 2.2: a gzip file is a series
+// of members; it decompresses to the concatenation), cut at roughly equal offsets.
+func GzipMembers(b []byte, n int) []byte {
+	if n < 2 || len(b) < n {
+		return Gzip(b)
+	}
+	var out []byte
+	for i := 0; i < n; i++ {
+		out = append(out, Gzip(b[i*len(b)/n:(i+1)*len(b)/n])...)
+	}
+	return out
+}
+
 func (t *Targets) RoundTrip(req *http.Request) (*http.Response, error) {
 	t.mu.Lock()
 	spec := t.Specs[req.URL.Host]
@@ -221,7 +235,7 @@ func (t *Targets) RoundTrip(req *http.Request) (*http.Response, error) {
 	}
 	wire := spec.Payload
 	if spec.Gzip {
-		wire = Gzip(spec.Payload)
+		wire = GzipMembers(spec.Payload, spec.GzipMembers)
 		hdr.Set("Content-Encoding", "gzip")
 	}
 	br := &bodyReader{data: wire, chunks: spec.Chunks, breakAt: -1}
